@@ -20,7 +20,10 @@ import numpy as np
 from harness.core import REPO, PropertyCheck, TieBroken
 from harness.props import c19_mask as MK
 from harness.props import c19_more as MR
+from harness.props import c19_pca as PC
+from harness.props import c19_img as IM
 from harness.props import c19_registry as RG
+from harness.props import c19_source as SRC
 from harness.util import Snapshot, all_close, cmp_rats, errname, fr, frs, parse_rats
 
 SCHEDS = ["st_01234", "st_43210", "st_02413", "st_13024", "st_42031", "st_odd0_even1",
@@ -96,7 +99,7 @@ flood_components = MK.flood_components
 class C19(PropertyCheck):
     id = "C19"
     title = "Array-level analyses respect axis conventions and their decompositions"
-    lean_modules = ["NipyVerif.Props.C19", "NipyVerif.Props.C19B", "NipyVerif.Props.C19C"]
+    lean_modules = ["NipyVerif.Props.C19", "NipyVerif.Props.C19B", "NipyVerif.Props.C19C", "NipyVerif.Props.C19D"]
     driver = "Drivers/C19.lean"
     rule = ("slice schedules: every n in 1..200 for all 8 schedules and their aliases, and every key of the live "
             "SLICETIME_FUNCTIONS against the table regenerated from timefuncs.py; slice times as consumed by "
@@ -104,20 +107,43 @@ class C19(PropertyCheck):
             "time_slice_diffs: the complete (ndim 2..5) x (time axis, negative included) x (slice axis or None) "
             "table on seeded arrays of float64 / float32 / uint8 / int8 / int16 / uint16 / int32 in C / Fortran / "
             "reversed / list layouts, out-of-range axes, named image axes, screens.screen; pca: seeded arrays of "
-            "2..5 dims (float / int8 / int16 / uint8), every axis, mask / ncomp / standardize / design variants; "
+            "2..5 dims (float64 / float32 / int8 / int16 / int32 / uint8 / uint16; C / Fortran / strided / "
+            "negative-stride / read-only / list), every axis, ncomp in {None, 0, 1, 2, T-1, T, T+3, -1}, standardize, "
+            "design_keep (full / narrow / rank-deficient), design_resid ('mean' / None / linear / rank-deficient / "
+            "one column), tol_ratio, masks (bool / int8 / uint8 weights / signed weights / float / float with NaN / "
+            "float32 with NaN, C or Fortran), ~12 % malformed calls (axis None / out of range, mask of another shape, "
+            "design row counts); image front ends (pca_image, time_slice_diffs_image, screen, io_axis_indices, "
+            "input_axis_index, parse_fname_axes) on coordinate maps with permuted / sheared / zero-scaled affines, "
+            "names shared between domain and range, every axis spelling; plot_tsdiffs on an Agg canvas, tsdiffana / "
+            "diagnose / write_screen_res through NIfTI files; "
             "masks: collections of 1..13, 127..300 and 2**15 (+1) masks of every dtype with 0/1 and other values, "
             "every threshold separating two voxel counts, files; compute_mask / _files / _sessions (1..300 "
             "sessions, images / 4-D / file lists) on every volume dtype; largest_cc with up to 65600 components; "
             "series_from_mask; generators incl. label sequences of up to 70000 entries; non-trivial = at least two "
-            "time points / slices / masks / sessions / labels; distinct by full JSON of the case")
+            "time points / slices / masks / sessions / labels, a resolvable axis for the image front ends; distinct "
+            "by full JSON of the case")
     assumptions = [
         "np.argsort of a permutation is its inverse permutation (model: position lookup); checked for n = 1..200",
-        "numpy.linalg.svd / eigh / pinv and sqrt are parameters of the PCA model: the factors the real run "
-        "computed are recorded and passed to the model as exact dyadic rationals; orthonormality of the "
-        "basis and the SVD equivalence are proved from the eigh/svd contracts (hypotheses) and checked "
-        "numerically by the oracle",
+        "numpy.linalg.svd / eigh and sqrt are certified parameters of the PCA model: U, S, D, Vs of the real run "
+        "(exact dyadic rationals) and the 1 / rmse scales enter the model, which returns the exact residuals of "
+        "their contracts (UX UX^T = 1, XZ XZ^T U = U S^2, S sorted, Vs^T Vs = 1, C Vs = Vs D, scale^2 msq = 1); "
+        "the harness requires them at rounding level (1e-9 relative; 1e-4 for the scale of float32 data); the "
+        "theorems pca_basis_orthonormal_of_cert / pca_diagonalises_of_cert / standardised_unit_msq_of_cert take "
+        "exactly these residuals as hypotheses and give explicit bounds",
+        "numpy.linalg.pinv: the harness computes the exact rational pseudo-inverse of design_keep / design_resid "
+        "(rank factorisation over Fraction); the model decides the four Moore-Penrose equations exactly (mpOK) "
+        "and mp_unique shows the certified matrix is the pseudo-inverse; numpy's floating-point pinv enters only "
+        "through the tolerant comparison of XZ / covariance / results",
         "np.argsort(-D) is modelled by a stable descending sort; basis vectors of numerically tied eigenvalues "
-        "are not compared",
+        "are not compared; runs whose singular-value ratios lie within 1e-9 of tol_ratio, or whose residual "
+        "series is rounding noise before standardisation, are not judged",
+        "io_orientation (nibabel; the in->out axis pairing that axmap reports) is a parameter of the model of "
+        "io_axis_indices / input_axis_index / drop_io_dim / pca_image / time_slice_diffs_image / screen; "
+        "coordmap.similar_to (mask image of pca_image) is decided by the real method and passed as a flag; "
+        "reordered_axes / rollimg data movement is C02's subject (the model follows the names only)",
+        "plot_tsdiffs is observed through matplotlib's Agg canvas (line data, scatter offsets, x-limits); colours, "
+        "labels and the PNG files are not compared; write_screen_res / tsdiffana / diagnose: the arrays and images "
+        "written are compared with the computed results, file-name plumbing is exercised only",
         "scipy.ndimage.label supplies the component labels to the model of largest_cc / "
         "threshold_connect_components; the oracle re-labels with an independent flood fill",
         "ndimage.binary_opening, ndimage.gaussian_filter and the float rounding of threshold*len / m*len are "
@@ -131,9 +157,20 @@ class C19(PropertyCheck):
         "only; the model sees the arrays as loaded",
         "the shape of each st_* body, of _dec_register_stf and of _derived_func is recognised syntactically by "
         "the translator (TieBroken otherwise); interp_slice_times is modelled on rational slice positions",
+        "c19_source.py recognises one strict shape per formula-like source line (rank rule, rmse denominator, "
+        "percent scale, back-roll offset, default slice axis, screen's positional guess, parse_fname_axes "
+        "defaults, plot x-limits, signature defaults) and raises TieBroken otherwise; theorems source_* state "
+        "that the regenerated definitions are the model's",
+        "the axis tables (time_slice_diffs, pca, output shapes, pca_image names) are proved for arrays / images "
+        "of 2..5 dimensions (the property's quantifier), not for arbitrary ndim",
     ]
-    level_note = ("PCA orthonormality / SVD equivalence are hypothesis-parameterised (eigh, svd contracts); "
-                  "connected-component labelling, morphological opening and Gaussian smoothing are oracle-only")
+    level_note = ("PCA orthonormality / SVD equivalence are proved from per-run certificates of svd / eigh / sqrt "
+                  "(exact residuals computed by the model, explicit bounds) and an exactly decided Moore-Penrose "
+                  "certificate of pinv; the floating-point svd / eigh themselves, io_orientation, "
+                  "connected-component labelling, morphological opening and Gaussian smoothing remain "
+                  "parameters or oracle-only; 'each position exactly once' is proved for slice_generator over one "
+                  "axis (positions and values, 2..5 dims), for the index tuples of multi-axis slice_generator, for "
+                  "write_data o data_generator and for parcels / slice_parcels, not for the values of multi-axis slices")
     finding_keys = {
         "C19-intersect-nonbinary": "intersect_masks sums mask values (first mask truncated to int) instead of "
                                    "counting memberships",
@@ -149,8 +186,10 @@ class C19(PropertyCheck):
     }
 
     def translators(self):
-        """nipy/algorithms/slicetiming/timefuncs.py -> lean/NipyVerif/Gen/C19Registry.lean"""
-        return RG.translate(REPO, TieBroken)
+        """nipy/algorithms/slicetiming/timefuncs.py -> lean/NipyVerif/Gen/C19Registry.lean;
+        formula-like lines of pca.py / timediff.py / screens.py / commands.py / tsdiffplot.py ->
+        lean/NipyVerif/Gen/C19Source.lean"""
+        return RG.translate(REPO, TieBroken) + SRC.translate(REPO, TieBroken)
 
     # ------------------------------------------------------------------ generation
     def generate(self, rng, tier):
@@ -206,6 +245,9 @@ class C19(PropertyCheck):
                           "keep": rng.choice([None, None, None, "rand"]),
                           "resid": rng.choice(["mean", "mean", None, "rand"]),
                           "dtype": rng.choice(PCA_DTYPES)})
+        cases += PC.gen_pcaf(rng, quick)
+        cases += IM.gen_imgax(rng, quick)
+        cases += IM.gen_tsdplot(rng, quick)
         for _ in range(10 if quick else 150):
             cases.append({"kind": "pcaimg", "shape": [rng.choice([2, 3]) for _ in range(3)] + [rng.choice([4, 5])],
                           "seed": rng.randrange(1 << 30), "names": rng.choice(["ijkt", "tijk", "ijtk"]),
@@ -628,6 +670,15 @@ class C19(PropertyCheck):
         return {"lines": [line], "impl": [("pca", obs)], "oracle": fail, "nontrivial": True, "tags": tags,
                 "mutated": mut}
 
+    def _pcaf(self, c):
+        return PC.run_pcaf(c)
+
+    def _imgax(self, c):
+        return IM.run_imgax(c)
+
+    def _tsdplot(self, c):
+        return IM.run_tsdplot(c)
+
     def _pcaimg(self, c):
         import nipy.algorithms.utils.pca as P
         from nipy.core.api import Image
@@ -840,6 +891,10 @@ class C19(PropertyCheck):
                 if d:
                     return f"part {k}: {d}"
             return None
+        if kind == "pcaf":
+            return PC.compare_pcaf(impl_obs[1], model_out)
+        if kind == "screenax":
+            return IM.compare_screenax(impl_obs, model_out)
         if kind == "pca":
             if model_out.startswith(("error", "bad-op")):
                 return f"impl returned values, model says {model_out}"
@@ -868,6 +923,8 @@ class C19(PropertyCheck):
     def shrink(self, case):
         yield from MK.shrink(case)
         yield from MR.shrink(case)
+        yield from PC.shrink(case)
+        yield from IM.shrink(case)
         if "shape" in case:
             for i, s in enumerate(case["shape"]):
                 if s > 1:
